@@ -765,6 +765,36 @@ func runC10(c *fw.Case) {
 		}
 	}
 
+	// FilteredApply: a valid clause (matching all, some or no rows) with an instruction that is invalid
+	{
+		clauses := []qframe.FilterClause{qframe.Filter{Column: iC, Comparator: "isnotnull"}, qframe.Filter{Column: iC, Comparator: ">", Arg: 0}, qframe.Filter{Column: iC, Comparator: "isnull"}, qframe.Null()}
+		instrs := []struct {
+			name string
+			in   qframe.Instruction
+		}{
+			{"unknown source column", qframe.Instruction{Fn: func(x int) int { cb.hit(); return x }, DstCol: "x", SrcCol1: "no-such-column"}},
+			{"function of the wrong type", qframe.Instruction{Fn: func(x float64) float64 { cb.hit(); return x }, DstCol: "x", SrcCol1: iC}},
+			{"unsupported constant type", qframe.Instruction{Fn: int64(1), DstCol: "x"}},
+			{"illegal destination name", qframe.Instruction{Fn: 1, DstCol: "$x"}},
+			{"copy of an unknown column", qframe.Instruction{Fn: types.ColumnName("no-such-column"), DstCol: "x"}},
+			{"unknown built-in", qframe.Instruction{Fn: "NoSuchBuiltin", DstCol: "x", SrcCol1: sC}},
+		}
+		for ci, cl := range clauses {
+			for _, in := range instrs {
+				cl, in := cl, in
+				judge(fmt.Sprintf("FilteredApply(valid clause #%d, %s)", ci, in.name), "FilteredApply", true, func() qframe.QFrame { return qf.FilteredApply(cl, in.in) })
+				if c.Failed() {
+					return
+				}
+				judge(fmt.Sprintf("FilteredApply(valid clause #%d, valid instruction, %s)", ci, in.name), "FilteredApply", true, func() qframe.QFrame {
+					return qf.FilteredApply(cl, qframe.Instruction{Fn: 2, DstCol: "ok"}, in.in)
+				})
+				if c.Failed() {
+					return
+				}
+			}
+		}
+	}
 	// empty And/Or nested in clauses of the same and of the other kind
 	{
 		valid := qframe.Filter{Column: iC, Comparator: "isnotnull"}
